@@ -61,6 +61,26 @@ var atomsD2q = []string{"i1", "s", "ta", "np"}
 // Binding such a value to a name would unwrap it, so these are expressions.
 var keyAtoms = []string{"ll [ 0 ]", "lm [ 0 ]", "lf [ 0 ]", "( <- ci )", "a [ 0 ]"}
 
+// refusedTypes fill type positions ($R): type expressions the parser accepts
+// and reflect refuses (StructOf: unexported or duplicate field name; MapOf:
+// unhashable key type), bare and nested one level inside a slice, map, struct,
+// pointer or channel type -- plus one accepted control.
+var refusedTypes = []string{
+	"struct { a int64 }",
+	"struct { A int64 , A int64 }",
+	"map [ [ ] int64 ] string",
+	"map [ map [ string ] int64 ] int64",
+	"[ ] struct { a int64 }",
+	"[ ] map [ [ ] int64 ] string",
+	"map [ string ] struct { a int64 }",
+	"map [ string ] map [ [ ] int64 ] int64",
+	"struct { A map [ [ ] int64 ] int64 }",
+	"struct { A struct { b string } }",
+	"* struct { a int64 }",
+	"chan map [ [ ] int64 ] int64",
+	"struct { A int64 }",
+}
+
 // typeAtoms fill type positions ($T).
 var typeAtoms = []string{"int64", "string", "float64", "bool", "interface", "nosuch", "a", "mo"}
 var typeAtomsD2 = []string{"int64", "interface", "nosuch"}
@@ -157,6 +177,26 @@ func templates() []template {
 	add("tmap", 'E', "map [ $T ] $T { $E : $E }", false, true)
 	add("tmapsi", 'E', "map [ string ] int64 { $E : $E }", true, true)
 	add("imap", 'E', "map { $E : $E }", true, true)
+	// reflect-refused types in every type position
+	add("rtarr0", 'E', "[ ] $R { }", false, true)
+	add("rtarr1", 'E', "[ ] $R { $E }", false, true)
+	add("rtarr2d", 'E', "[ ] [ ] $R { }", false, true)
+	add("rtarr2d1", 'E', "[ ] [ ] $R { $E }", false, true)
+	add("rtmapv", 'E', "map [ $T ] $R { }", false, true)
+	add("rtmapk", 'E', "map [ $R ] $T { }", false, true)
+	add("rtmapv1", 'E', "map [ string ] $R { $E : $E }", false, true)
+	add("rtmake", 'E', "make ( $R )", false, true)
+	add("rtmakeslice", 'E', "make ( [ ] $R , $E )", false, true)
+	add("rtmakeslice2", 'E', "make ( [ ] [ ] $R )", false, true)
+	add("rtmakechan", 'E', "make ( chan $R , $E )", false, true)
+	add("rtmakemapv", 'E', "make ( map [ $T ] $R )", false, true)
+	add("rtmakemapk", 'E', "make ( map [ $R ] $T )", false, true)
+	add("rtmakeptr", 'E', "make ( * $R )", false, true)
+	add("rtmakestruct", 'E', "make ( struct { A $R , B $T } )", false, true)
+	add("rtnew", 'E', "new ( $R )", false, true)
+	add("rtnewslice", 'E', "new ( [ ] $R )", false, true)
+	add("rtmaketype", 'E', "make ( type nt , [ ] $R { } )", false, true)
+	add("rtmaketype2", 'E', "make ( type nt , make ( $R ) )", false, true)
 	// interface-wrapped unhashable keys in every key position
 	add("keyindex", 'E', "$E [ $K ]", false, true)
 	add("keymap", 'E', "{ $K : $E }", false, true)
@@ -281,7 +321,7 @@ func (p *pattern) render(i int64) string {
 	return strings.Join(toks, " ")
 }
 
-func isHole(t string) bool { return t == "$E" || t == "$L" || t == "$S" || t == "$T" || t == "$K" }
+func isHole(t string) bool { return t == "$E" || t == "$L" || t == "$S" || t == "$T" || t == "$K" || t == "$R" }
 
 // instantiate builds the depth-1 pattern of a template.
 func instantiate(t template, exprAtoms func(nholes int) []string, tyAtoms []string) pattern {
@@ -301,6 +341,8 @@ func instantiate(t template, exprAtoms func(nholes int) []string, tyAtoms []stri
 			p.holes = append(p.holes, hole{i, tyAtoms})
 		case "$K":
 			p.holes = append(p.holes, hole{i, keyAtoms})
+		case "$R":
+			p.holes = append(p.holes, hole{i, refusedTypes})
 		}
 	}
 	p.n = p.count()
